@@ -89,8 +89,7 @@ func (e *Encoder) Encode(object interface{}) ([]byte, error) {
 //WriteData write object
 func (e *Encoder) WriteData(data interface{}) (int, error) {
 	if data == nil {
-		e.writeBT(_nilTag)
-		return 1, nil
+		return e.writeBT(_nilTag)
 	}
 	source := data
 	v := reflect.ValueOf(data)
@@ -99,8 +98,7 @@ func (e *Encoder) WriteData(data interface{}) (int, error) {
 		v = UnpackPtr(v)
 
 		if !v.IsValid() {
-			e.writeBT(_nilTag)
-			return 1, nil
+			return e.writeBT(_nilTag)
 		}
 
 		data = v.Interface()
